@@ -17,13 +17,16 @@
 #endif
 void harness(void) {
 #ifdef LIT
-    /* boundary instance: N literal distinct values (index-width boundaries 255/256/257 entries), last one symbolic */
-    VP_IN(uint64_t, last);
-    VP_ASSUME(last > 3 * N + 10);
+    /* boundary instance: N literal distinct values (index-width boundaries 255/256/257 entries); the bytes behind the
+     * reported length (junk) and the prior buffer contents stay symbolic; LIT == 2 additionally makes one value symbolic */
     uint64_t v[N];
     for (unsigned i = 0; i < N; i++)
-        v[i] = 3 * i + 1;
+        v[i] = 3 * ((i * 7) % N) + 1; /* N distinct literal values in scrambled order (7 is coprime to 255..257) */
+#if LIT == 2
+    VP_IN(uint64_t, last);            /* one symbolic value above all the literal ones */
+    VP_ASSUME(last > 3 * N + 10);
     v[N - 1] = last;
+#endif
 #else
     VP_IN_ARR(uint64_t, v, N);
 #endif
